@@ -1,6 +1,6 @@
 import logging
 from functools import wraps
-from threading import Lock
+from threading import RLock
 from contextlib import contextmanager
 
 from .logwrap import LogWrapper
@@ -24,7 +24,10 @@ def executor_loop(fn):
 
 class ShutdownHelper(object):
     def __init__(self):
-        self._lock = Lock()
+        # Reentrant: submit() holds this lock while it runs, and with a
+        # synchronous delegate the submitted callable (or a callback) runs inside
+        # submit() and may itself submit to - or shut down - the same executor.
+        self._lock = RLock()
         self.is_shutdown = False
 
     @contextmanager
